@@ -59,7 +59,18 @@ Definition diff_msgs (adv new : table) (o1 o2 : list key) : list smsg :=
      | w => [MWdr w]
      end.
 
-Record cfg := { my_asn : N; peer_asn : N; universe : list key }.
+Record cfg := { my_asn : N; peer_asn : N; universe : list key;
+                cfg_hold : option N }.   (* SessionParameters.HoldTime in whole seconds; None = nil pointer *)
+
+(* NewSession: "native mode does not support empty holdtime, we explicitly set
+   it to 90s in this case" -- ONLY a nil pointer is replaced; an explicit 0
+   (RFC 4271: hold time 0 = no keepalives) is kept.  connect() passes it to
+   sendOpen together with MyASN. *)
+Definition session_hold (c : cfg) : N := match cfg_hold c with None => 90 | Some h => h end.
+(* sendKeepalives: ticker period actualHoldTime/3 with actualHoldTime =
+   min(own, peer's); no ticker at all when that is 0 *)
+Definition keepalive_period (c : cfg) (peer_hold : N) : option N :=
+  let h := N.min (session_hold c) peer_hold in if h =? 0 then None else Some (h / 3).
 
 Record sess := { closed : bool; conn : option N; synced : bool;  (* first flush done on this connection *)
                  advertised : table; pending : option table; fbasn : bool }.
